@@ -21,7 +21,9 @@ MANIFEST = dict(
           'characterwise + generic induction over adjacent byte pairs + one closed vm_compute sweep of 256x257 pairs per shell '
           'over the replace chains regenerated from src/{bash,fish,zsh,pwsh}.rs on every run. C07_refuted_pwsh_smart_quote is '
           'the machine-checked witness of the known pwsh defect; ex_C07_bash_backslash_regression keeps the witnesses of the '
-          'fixed bash defect. Per run: all strings of '
+          'fixed bash defect. On whole scripts (Props/C07b.v, corollaries of C04_embed_zsh/fish): in the WHOLE emitted zsh and '
+          'fish script the literal list of the completion function and every description constant read back to the texts of the '
+          'tables, for ALL texts. Per run: all strings of '
           'length <= 2 over the 94-character literal alphabet (top level and inside a word) and the 97-character description '
           'alphabet, plus random longer and non-ASCII ones, x 4 emitters: constants cut out of the real scripts are decoded by '
           'the extracted reader and compared with the grammar; the model constant must equal the emitted constant byte for '
